@@ -1280,3 +1280,124 @@ def run_cases(ctx, specs):
     finally:
         close_all()
         shutil.rmtree(root, ignore_errors=True)
+
+
+# ------------------------------------------------------------------------------------------------ corpus
+def _base(special=None, **netkw):
+    """two populations (one sized, one instance based) and the standard top-level components"""
+    pops = [mk_pop("zpop", "iz", size=5, props=[["color", "1 0 0"]]),
+            mk_pop("apop", "iaf", insts=[(0, F(0), F(0.1), F(-3)), (1, F(1.5), F(0.1), F(-3)), (2, F(3), F(0.1), F(-3))])]
+    d = mk_doc("d1", [mk_net("net1", pops, **netkw)], STD_TOP)
+    if special:
+        d["special"] = special
+    return d
+
+
+def _zb(i):
+    return ["bracket", "zpop", i]
+
+
+def _as(i):
+    return ["slash", "apop", i, "iaf"]
+
+
+def _corpus():
+    out = []
+    # (i) electrical / continuous connection ids unrelated to the row index (repaired: parser `indexId >= 0`)
+    out.append(_base("corpus:conn-ids", eprojs=[{"id": "ep1", "pre": "zpop", "post": "zpop", "insts": [], "instWs": [], "plain": [
+        mk_conn(10, ["plain", 1], ["plain", 2], syn="gj"),
+        mk_conn(15, ["plain", 3], ["plain", 2], preSeg=1, postFrac=F(1, 4), syn="gj")]}],
+        cprojs=[{"id": "cp1", "pre": "zpop", "post": "apop", "plain": [], "instWs": [], "insts": [
+            mk_conn(7, _zb(1), _as(2), syn="gs1", preComp="silent1"), mk_conn(3, _zb(0), _as(0), syn="gs1", preComp="silent1")]}]))
+    # (iii) notes=None on document and network (repaired: attribute written only when set); notes set elsewhere
+    d = _base("corpus:notes")
+    out.append(d)
+    d = _base("corpus:notes-set", notes="Network notes", temperature="32degC")
+    d["notes"] = "Document notes"
+    out.append(d)
+    # (v) rows without a weight in tables that have a weight column (repaired: default weight 1)
+    out.append(_base("corpus:unweighted-rows",
+        projs=[{"id": "pr1", "pre": "zpop", "post": "apop", "syn": "syn1",
+                "conns": [mk_conn(7, _zb(1), _as(2))],
+                "connWDs": [mk_conn(3, _zb(4), _as(0), preSeg=2, weight=F(1, 4), delay=[jr(F(2)), "ms"]),
+                            mk_conn(4, _zb(4), _as(1), weight=F(1), delay=[jr(F(1, 2)), "s"])]}],
+        eprojs=[{"id": "ep1", "pre": "zpop", "post": "apop", "plain": [], "insts": [mk_conn(11, _zb(1), _as(2), syn="gj")],
+                 "instWs": [mk_conn(5, _zb(2), _as(1), weight=F(1, 2), syn="gj"), mk_conn(6, _zb(2), _as(0), weight=F(1), syn="gj")]}],
+        cprojs=[{"id": "cp1", "pre": "zpop", "post": "apop", "plain": [], "insts": [mk_conn(11, _zb(1), _as(2), syn="gs1", preComp="silent1")],
+                 "instWs": [mk_conn(5, _zb(2), _as(1), weight=F(2), syn="gs1", preComp="silent1")]}],
+        ilists=[{"id": "il1", "comp": "pg", "pop": "apop", "inputs": [mk_inp(4, _as(1))],
+                 "inputWs": [mk_inp(2, _as(2), seg=3, frac=F(1, 4), weight=F(1, 2)), mk_inp(9, _as(0), weight=F(1))]}]))
+    # KNOWN (ii): Input.fraction_along = 0.0 is written as 0.5 (C19's accessor defect)
+    out.append(_base("corpus:frac0", ilists=[{"id": "il1", "comp": "pg", "pop": "zpop", "inputWs": [],
+                                               "inputs": [mk_inp(3, _zb(1), seg=1, frac=F(0)), mk_inp(1, _zb(2), frac=F(1, 4))]}]))
+    # KNOWN (iv): dangling pre_component of a continuous projection
+    out.append(_base("corpus:dangling-pre", cprojs=[{"id": "cp1", "pre": "zpop", "post": "zpop", "insts": [], "instWs": [], "plain": [
+        mk_conn(0, ["plain", 1], ["plain", 2], syn="gs1", preComp="undefinedComp"),
+        mk_conn(1, ["plain", 2], ["plain", 3], syn="gs1", preComp="undefinedComp")]}]))
+    # KNOWN: two synapses inside one electrical projection
+    out.append(_base("corpus:mixed-syn", eprojs=[{"id": "ep1", "pre": "zpop", "post": "zpop", "insts": [], "instWs": [], "plain": [
+        mk_conn(0, ["plain", 1], ["plain", 2], syn="gj"), mk_conn(1, ["plain", 2], ["plain", 3], syn="gj2")]}]))
+    # KNOWN: weighted electrical connection between two sized populations
+    out.append(_base("corpus:w-sized", eprojs=[{"id": "ep1", "pre": "zpop", "post": "zpop", "plain": [],
+        "insts": [mk_conn(4, _zb(0), _zb(1), syn="gj")], "instWs": [mk_conn(9, _zb(1), _zb(2), weight=F(1, 2), syn="gj")]}]))
+    # KNOWN: instance ids that are not the row index
+    d = _base("corpus:inst-ids")
+    for j, i in enumerate(d["nets"][0]["pops"][1]["insts"]):
+        i[0] = 5 + 2 * j
+    out.append(d)
+    # KNOWN: population id containing "projection_"
+    d = _base("corpus:name-sub")
+    d["nets"][0]["pops"].append(mk_pop("projection_x", "iz", size=2))
+    out.append(d)
+    # KNOWN: children the format has no place for are dropped silently
+    for kind in ("spaces", "regions", "cell_sets"):
+        d = _base("corpus:" + kind)
+        d["nets"][0]["extras"] = {"spaces": True, "regions": kind == "regions"} if kind != "cell_sets" else {"cell_sets": True}
+        out.append(d)
+    d = _base("corpus:popnotes")
+    d["nets"][0]["pops"][0]["xnotes"] = "notes of a population"
+    d["nets"][0]["pops"][1]["ijk"] = True
+    d["nets"][0]["pops"][0]["props"] = [["a:b", "v1"]]
+    out.append(d)
+    out.append(_base("corpus:dest", ilists=[{"id": "il1", "comp": "pg", "pop": "zpop", "inputWs": [], "dest": "someOtherPort",
+                                              "inputs": [mk_inp(3, _zb(1))]}]))
+    # refusals
+    d = _base("corpus:synconn")
+    d["nets"][0]["nSyn"] = 1
+    out.append(d)
+    d = _base("corpus:explicit")
+    d["nets"][0]["nExp"] = 1
+    out.append(d)
+    d = _base("corpus:twonets")
+    d["nets"].append(mk_net("net2", [mk_pop("q", "iz", size=1)]))
+    out.append(d)
+    out.append(_base("corpus:empty-e", eprojs=[{"id": "ep1", "pre": "zpop", "post": "zpop", "plain": [], "insts": [], "instWs": []}]))
+    out.append(_base("corpus:empty-proj", projs=[{"id": "pr1", "pre": "zpop", "post": "apop", "syn": "syn1", "conns": [], "connWDs": []}]))
+    out.append(_base("corpus:usdelay", projs=[{"id": "pr1", "pre": "zpop", "post": "apop", "syn": "syn1", "conns": [],
+                                                "connWDs": [mk_conn(0, _zb(0), _as(0), weight=F(1), delay=[jr(F(250)), "us"])]}]))
+    # chemical projection without segment information but ids unrelated to the row index (ids are not stored)
+    out.append(_base("corpus:chem-ids", projs=[{"id": "pr1", "pre": "apop", "post": "zpop", "syn": "syn2", "connWDs": [],
+                                                 "conns": [mk_conn(40, _as(2), _zb(3)), mk_conn(7, _as(0), _zb(1)), mk_conn(8, _as(1), _zb(1))]}]))
+    return out
+
+
+CORPUS = _corpus()
+
+
+def run(ctx):
+    n = ctx.n(110, 900) * ctx.search_mult
+    specs = [json.loads(json.dumps(c)) for c in CORPUS]
+    big = ctx.tier == "thorough"
+    for i in range(n):
+        specs.append(gen_special(ctx.rng) if i % 4 == 3 else gen_doc(ctx.rng, big=big))
+    # batches keep the driver input and the temporary directory small
+    for i in range(0, len(specs), 150):
+        run_cases(ctx, specs[i:i + 150])
+
+
+def replay(ctx, payload):
+    case = payload.get("case", payload)
+    spec = case["spec"] if "spec" in case else case
+    run_cases(ctx, [spec])
+    return {"fails": bool(ctx.failures or ctx.corr_disagreements), "failures": ctx.failures,
+            "disagreements": ctx.corr_disagreements[:3]}
